@@ -15,10 +15,11 @@ RULE = ("Hypothesis stateful machines (RuleBasedStateMachine): one machine = one
         "isolated block and process_contract(permutation) as a contract, up to 40 steps, never resetting the tool's module state "
         "in between; after every step the specification dictionaries (all fields, identifiers included), sub-block list, optimized "
         "instructions, log ids and statistics row (minus timings) must equal the result of the same block on pristine module state; "
-        "the pristine-state emulation is itself cross-checked against really fresh forked processes on a sample; "
+        "the pristine-state emulation (module data globals, mutable default arguments and mutable class attributes of every repository module put back to their import-time values) is itself cross-checked against newly started interpreters on a sample; "
         "non-trivial = step whose history already contains >= 1 other block; distinct by (block, options, history hash)")
-ASSUME = ["pristine module state is emulated by restoring the data globals of the tool's stateful modules to their import-time "
-          "snapshot; validated against fresh forked processes on a sample in every run",
+ASSUME = ["pristine module state is emulated by restoring the data globals of the tool's stateful modules, and the mutable default "
+          "arguments / class attributes of all its modules, to their import-time snapshot; validated against newly started "
+          "interpreters on a sample in every run",
           "greedy back-end (deterministic); Max-SMT results are excluded because solvers time out non-deterministically"]
 OPTSETS = [["-greedy"], ["-storage", "-greedy"], ["-partition", "-size", "-greedy"], ["-no-simplification", "-push0", "-greedy"],
            ["-length", "-greedy"]]
@@ -122,23 +123,29 @@ class Shard:
                 r = hermetic.local(go, timeout=30)      # reset=True: pristine state
                 self.model[(i, oi)] = norm(r.value) if r.kind == "ok" else {"harness": r.kind}
 
-    def validate_models(self, rng, n=6):
-        """the pristine-state emulation must agree with really fresh processes"""
+    def validate_models(self, rng, n=3):
+        """the pristine-state emulation must agree with really fresh interpreters (a forked child would inherit whatever
+        hidden state this process has accumulated, so a new Python process is started for every sample)"""
+        from .c13 import Server
         keys = rng.sample(sorted(self.model), min(n, len(self.model)))
         for (i, oi) in keys:
-            items = asm.instrs_to_items(self.pool[i])
-            argv = OPTSETS[oi]
-
-            def go():
-                start_history(argv)
-                return process_block(items, argv)
-            r = hermetic.call(go, cpu=60)
-            got = norm(r.value) if r.kind == "ok" else {"harness": r.kind}
-            self.stats.classes["model cross-checked against a fresh forked process"] += 1
+            srv = Server("0")
+            try:
+                ans = srv.ask({"call": "vf.props.c12:server_job", "items": asm.instrs_to_items(self.pool[i]), "argv": OPTSETS[oi]})
+            finally:
+                srv.close()
+            got = norm(ans["value"]) if ans["kind"] == "ok" else {"harness": ans["kind"]}
+            self.stats.classes["model cross-checked against a fresh interpreter"] += 1
             if got != self.model[(i, oi)]:
                 d = first_diff(self.model[(i, oi)], got)
-                raise runner.HarnessError("pristine-state emulation disagrees with a fresh process on `%s` %s: %s" % (
-                    asm.instrs_to_plain(self.pool[i]), argv, d))
+                raise runner.HarnessError("pristine-state emulation disagrees with a fresh interpreter on `%s` %s: %s" % (
+                    asm.instrs_to_plain(self.pool[i]), OPTSETS[oi], d))
+
+
+def server_job(job):
+    """(inside a fresh interpreter) one block on a process that has processed nothing else"""
+    start_history(job["argv"])
+    return process_block(job["items"], job["argv"])
 
 
 def make_machine(shard):
